@@ -465,7 +465,13 @@ func runHTTP(c HTTPCase) *evid.Failure {
 					}
 				}
 				if c.ErrCode == 0 && string(m.Body) != resp {
-					add(evid.Failf("http-wire-response", "response body on the wire differs from what the handler passed to End: %s", firstDiff([]byte(resp), m.Body)))
+					sig := "http-wire-response"
+					if multi {
+						// the client returns after its first receive and the connection is closed:
+						// the rest of a multi-segment response may never reach the wire (F24)
+						sig = "http-body-mismatch:wire-response"
+					}
+					add(evid.Failf(sig, "response body on the wire differs from what the handler passed to End: %s", firstDiff([]byte(resp), m.Body)))
 				}
 			}
 		}
